@@ -45,3 +45,5 @@ CLAIM = dict(
          "pretty_dtoa, format-spec width).",
     technique="randomised and shape-directed crash search on the implementation (panic capture by call site, watchdog) + Lean 4 theorems for the arithmetic cores of the known crashes",
 )
+
+CLAIM["text"] += ' A class of range edges was added: date-times plus or minus durations of every magnitude, calendar arithmetic, three-argument assertions with tolerances from 5e-324 to 1e308 (their failure message formats the tolerance), and definitions whose parameters or where-variables are named like units.'
